@@ -253,6 +253,7 @@ static int vpe_gethostname(char *name, size_t len) { (void)name; (void)len; retu
 #define sendto(a, b, c, d, e, f) vpe_sendto((a), (b), (c), (d), (e), (f))
 #define recvfrom(a, b, c, d, e, f) vpe_recvfrom((a), (b), (c), (d), (e), (f))
 #define gethostname(a, b) vpe_gethostname((a), (b))
+#ifndef VPE_NO_BUFFEREVENT
 /* ----------------------------------------------------------- bufferevent */
 /* TCP transport of the resolver: a bufferevent is an opaque token from a small pool; writes/enables succeed unless
  * the harness set vpe_bev_fail; the callbacks installed are recorded so that a harness can deliver events. */
@@ -290,6 +291,7 @@ evutil_socket_t bufferevent_getfd(struct bufferevent *b) { (void)vpe_bev_of(b); 
 struct evbuffer *bufferevent_get_input(struct bufferevent *b) { (void)vpe_bev_of(b); return NULL; }
 size_t bufferevent_read(struct bufferevent *b, void *d, size_t n) { (void)d; (void)n; (void)vpe_bev_of(b); return 0; }
 size_t evbuffer_get_length(const struct evbuffer *buf) { (void)buf; return 0; }
+#endif
 
 #include "util-internal.h"
 int vpe_gai_fn_set, vpe_gai_cancel_fn_set;
